@@ -26,11 +26,12 @@ import re
 import warnings
 from fractions import Fraction
 from io import StringIO
+from pathlib import Path
 
 ID = "C13"
 DRIVER = "drv_c13"
-LEAN_TARGETS = ["PharmpyProofs.C13.Properties", "drv_c13"]
-PROPERTIES = ["PharmpyProofs/C13/Properties.lean"]
+LEAN_TARGETS = ["PharmpyProofs.C13.Properties", "PharmpyProofs.C13.WriteProperties", "drv_c13"]
+PROPERTIES = ["PharmpyProofs/C13/Properties.lean", "PharmpyProofs/C13/WriteProperties.lean"]
 LEAN_SOURCES = ["PharmpyModel/C13/*.lean", "PharmpyModel/Generated/C13Consts.lean", "PharmpyProofs/C13/*.lean",
                 "Drivers/C13.lean"]
 TIME_LIMIT = {"quick": 900, "thorough": 3000}
@@ -43,6 +44,10 @@ RULE = ("kind=read: a data-file text of 1-7 rows built from the documented lexic
         "x NULL value x 0-3 IGNORE or ACCEPT conditions (string and numeric operators, every spelling). "
         "kind=roundtrip: a numeric frame (ints, short and 17-digit floats, tiny/huge exponents, NaN) written with "
         "DataFrame.to_csv(na_rep='-99', index=False) and read back with IGNORE=@. "
+        "kind=history: a $PRED model + data file and 2-12 write_csv / write_model / dataset-change operations; in about half "
+        "of them $INPUT drops columns in every form (anonymous DROP / SKIP -> _DROPn, X=DROP, DROP=X) before ID (first "
+        "column of the file), between and after the data columns, DV optionally under a synonym; plus 5 first-column labels "
+        "(letter, '_', '#', '@', digit, other starts) for the IGNORE character chosen from the header. "
         "non-trivial = the real reader returned a table with >= 2 rows and >= 2 columns, or raised a documented error "
         "on a text with >= 2 rows; distinct = distinct case JSON")
 TRUSTED = [
@@ -62,6 +67,8 @@ ASSUMPTIONS = [
     "model coincides with float64 comparison)",
     "raw=False, dtype=None, ID never DROPped, no duplicate column names involving a DROPped column, no '\\r'",
     "text passed as StringIO (file reading with latin-1 / universal newlines is outside)",
+    "column labels are ASCII (str.isalpha() of the first character is modelled as [A-Za-z]); with anonymous DROP columns "
+    "only value / row changes are generated (adding or removing columns renumbers _DROPn: outside)",
 ]
 
 MISSING = "-99"
@@ -665,10 +672,68 @@ def gen_history_case(rng: random.Random):
             t = 0.0
         rows.append([repr(float(cid)), repr(t)] + [gen_hist_value(rng) for _ in cols[2:]])
         t += rng.choice([0.5, 1.0, 2.0])
+    # $INPUT forms (about half of the histories): record-number / text columns that $INPUT drops — anonymous
+    # (DROP, SKIP: the dataset column is _DROPn), X=DROP, DROP=X — before ID (first column of the file), between and
+    # after the data columns; DV under a synonym.  The data file header carries the file's own names.
+    inp, dcols, dropped = None, list(cols), []
+    if rng.random() < 0.5:
+        def drop_form(name):
+            form = rng.randrange(4)
+            w = rng.choice(["DROP", "SKIP"])
+            return [w, None] if form < 2 else ([name, w] if form == 2 else [w, name])
+        inp = [[c, None] for c in cols]
+        if rng.random() < 0.3:
+            inp[2] = rng.choice([["CONC", "DV"], ["DV", "CONC"]])
+        lead = rng.sample(["REC", "ROW", "C", "SITE"], wchoice(rng, [(1, 70), (2, 12), (0, 18)]))
+        trail = rng.sample(["FLAG", "COMM", "LAB"], wchoice(rng, [(0, 60), (1, 30), (2, 10)]))
+        newcols, newinp, newrows = [], [], [[] for _ in rows]
+
+        def add_dropped(name):
+            newcols.append(name)
+            newinp.append(drop_form(name))
+            kind = rng.randrange(3)
+            for i_, nr in enumerate(newrows):
+                # the first item of a row must not start with a letter, '#' or '@' (IGNORE=@ would drop the row)
+                pool_ = ["12:30", "7", "0.50", "2021-03-01", "10", "3"] if not newcols[:-1] else ["a", "b", "x1", "12:30", "7", "0.50", "F"]
+                nr.append(str(i_ + 1) if kind == 0 else rng.choice(pool_))
+        for nm_ in lead:
+            add_dropped(nm_)
+        for j, c in enumerate(cols):
+            newcols.append(c)
+            newinp.append(inp[j])
+            for i_, nr in enumerate(newrows):
+                nr.append(rows[i_][j])
+            if j >= 1 and rng.random() < 0.1:
+                add_dropped(rng.choice(["MID", "NOTE"]) + str(j))
+        for nm_ in trail:
+            add_dropped(nm_)
+        cols, inp, rows = newcols, newinp, newrows
+        dcols, anon = [], 1
+        for kk, vv in inp:
+            if vv is None and kk in ("DROP", "SKIP"):
+                dcols.append(f"_DROP{anon}")
+                anon += 1
+                dropped.append(dcols[-1])
+            elif vv is None:
+                dcols.append(kk)
+            elif kk in ("DROP", "SKIP") or vv in ("DROP", "SKIP"):
+                dcols.append(vv if kk in ("DROP", "SKIP") else kk)
+                dropped.append(dcols[-1])
+            else:
+                dcols.append(vv if kk in RESERVED else kk)
+    numeric = [c for c in dcols if c not in dropped and c not in ("ID", "TIME")]
+    # first-column labels for the label-level check of the generated IGNORE character
+    labels = [rng.choice("ABCXYZabcxyz__#@$%&*!19") + "".join(rng.choice("ABCDIXY_019") for _ in range(rng.randint(0, 5)))
+              for _ in range(3)] + [f"_DROP{rng.randint(1, 12)}", rng.choice(dcols)]
+
+    anonymous = any(c.startswith("_DROP") for c in dropped)
 
     def change():
         r = rng.random()
-        col = rng.choice(cols[2:])
+        col = rng.choice(numeric)
+        if anonymous and not r < 0.55:
+            # with anonymous DROP columns only value / row changes (adding or removing columns renumbers _DROPn: outside)
+            return ["filter_rows", rng.random() < 0.6, [rng.random() < 0.7 for _ in range(8)]]
         if r < 0.55:
             return ["set_values", rng.random() < 0.7, col, rng.choice(["mul", "add", "nan", "round"]),
                     rng.choice([1000.0, 0.5, 2.0, -1.0, 0.001, 3.25])]
@@ -693,7 +758,11 @@ def gen_history_case(rng: random.Random):
     if rng.random() < 0.6:
         tgt = rng.choice(["A.csv", "B.csv", "cur"])
         ops += [["write_csv", tgt, True], wmodel(), change(), ["write_csv", tgt if rng.random() < 0.8 else "cur", True], wmodel()]
-    return {"kind": "history", "cols": cols, "rows": rows, "ops": ops, "seed": rng.randrange(1 << 30)}
+    case = {"kind": "history", "cols": cols, "rows": rows, "ops": ops, "seed": rng.randrange(1 << 30)}
+    if inp is not None:
+        case["input"] = inp
+    case["labels"] = labels
+    return case
 
 
 def gen_cases(rng: random.Random, n: int, tier: str):
@@ -770,6 +839,13 @@ def corpus_cases():
                  ["set_values", False, "DV", "add", 2.0], ["write_model", "m4.mod", True], ["write_csv", "dir", True],
                  ["add_column", "NEW1", ["1.0", "2.0", "3.0"]], ["write_csv", "cur", True], ["write_model", "m5.mod", False]],
          "seed": 9},
+        # history with $INPUT DROP forms: the first column is an anonymous DROP (dataset label _DROP1, header needs IGNORE=_)
+        {"kind": "history", "cols": ["REC", "ID", "TIME", "DV", "FLAG"],
+         "input": [["DROP", None], ["ID", None], ["TIME", None], ["CONC", "DV"], ["FLAG", "SKIP"]],
+         "rows": [["1", "1.0", "0.0", "1.5", "a"], ["2", "1.0", "1.0", "2.5", "b"], ["3", "2.0", "0.0", "3.25", "x1"]],
+         "ops": [["set_values", False, "CONC", "mul", 2.0], ["write_model", "m2.mod", True], ["write_csv", "A.csv", True],
+                 ["write_model", "m3.mod", True]],
+         "labels": ["_DROP1", "ID", "_X", "#ID", "@A", "X_1"], "seed": 11},
         {"kind": "roundtrip", "cols": ["ID", "TIME", "DV"], "rows": [["1.0", "0.0", "-2.2250738585072014e-308"],
                                                                        ["2.0", "1.0", "nan"]], "seed": 3},
     ]
@@ -787,7 +863,22 @@ def shrink(case):
             c = dict(case)
             c["rows"] = case["rows"][:-1]
             yield c
-        if len(case["cols"]) > 3:
+        if len(case.get("labels", [])) > 1:
+            for i in range(len(case["labels"])):
+                c = dict(case)
+                c["labels"] = case["labels"][:i] + case["labels"][i + 1:]
+                yield c
+        if "input" in case:
+            # remove one column (file column, $INPUT option and cells); ID / TIME / DV stay
+            for j in range(len(case["cols"])):
+                if case["cols"][j] in ("ID", "TIME", "DV"):
+                    continue
+                c = dict(case)
+                c["cols"] = case["cols"][:j] + case["cols"][j + 1:]
+                c["input"] = case["input"][:j] + case["input"][j + 1:]
+                c["rows"] = [r[:j] + r[j + 1:] for r in case["rows"]]
+                yield c
+        if len(case["cols"]) > 3 and "input" not in case:
             c = dict(case)
             c["cols"] = case["cols"][:-1]
             c["rows"] = [r[:-1] for r in case["rows"]]
@@ -1665,10 +1756,47 @@ def frames_equal(a, b):
         return False
     for c in a.columns:
         for x, y in zip(a[c].tolist(), b[c].tolist()):
-            x, y = float(x), float(y)
+            if isinstance(x, str) or isinstance(y, str):
+                # a text (DROPped) column: the item texts, or the same number
+                if str(x) == str(y):
+                    continue
+                try:
+                    x, y = float(x), float(y)
+                except ValueError:
+                    return False
+            else:
+                x, y = float(x), float(y)
             if not ((math.isnan(x) and math.isnan(y)) or x == y):
                 return False
     return True
+
+
+def header_ignore_char(header):
+    """an IGNORE character under which the documented comment rules skip a header line: '@' if it starts with a
+    letter, '#' or '@' (the @ rule), otherwise its first character"""
+    c = header[:1]
+    return "@" if c == "" or (c.isascii() and c.isalpha()) or c in "#@" else c
+
+
+def generated_data_record(path):
+    """(file name, IGNORE character or None) of the $DATA record of a written model"""
+    rec = NMTranParser().parse(path.read_text()).get_records("DATA")[0]
+    return rec.filename, rec.ignore_character, " ".join(str(rec).split())
+
+
+_DATA_RECS = {}
+
+
+def real_ignore_from_header(start, label):
+    """DataRecord.set_ignore_character_from_header(label).ignore_character on a $DATA record that starts with the
+    given IGNORE option"""
+    if start not in _DATA_RECS:
+        opt = "" if start is None else f" IGNORE={start}"
+        _DATA_RECS[start] = NMTranParser().parse(f"$PROBLEM x\n$DATA f.csv{opt}\n$INPUT ID DV\n").get_records("DATA")[0]
+    try:
+        return ["ok", _DATA_RECS[start].set_ignore_character_from_header(label).ignore_character]
+    except IndexError:
+        return ["err", "IndexError"]
 
 
 def run_history_case(case, drv):
@@ -1681,11 +1809,34 @@ def run_history_case(case, drv):
     try:
         text = ",".join(case["cols"]) + "\n" + "".join(",".join(MISSING if v == "nan" else v for v in r) + "\n" for r in case["rows"])
         (d / "data.dat").write_text(text)
-        (d / "run1.mod").write_text(f"$PROBLEM c13\n$INPUT {' '.join(case['cols'])}\n$DATA data.dat IGNORE=@\n$PRED\n"
+        inp_text = " ".join(k_ if v_ is None else f"{k_}={v_}" for k_, v_ in case["input"]) if "input" in case else " ".join(case["cols"])
+        if "input" in case:
+            tags.append("h-input:first=" + ("anon-drop" if case["input"][0][1] is None and case["input"][0][0] in ("DROP", "SKIP")
+                                            else ("named-drop" if case["input"][0][1] is not None else "plain")))
+            tags.append(f"h-input:ndrop={sum(1 for k_, v_ in case['input'] if 'DROP' in (k_, v_) or 'SKIP' in (k_, v_))}")
+        # ---- the IGNORE character chosen from a first column label: K (Lean ignoreCharFromHeader) and Mon (the header
+        # line that starts with the label must be a comment under it)
+        for lab in case.get("labels", []):
+            for start in ("@", None, "#"):
+                rl = real_ignore_from_header(start, lab)
+                if drv is not None:
+                    a = drv.ask(["ignchar", lab])
+                    if a != rl:
+                        k.append(f"set_ignore_character_from_header({lab!r}) on IGNORE={start}: model {a} code {rl}")
+                if rl[0] == "ok" and re.fullmatch(r"[A-Za-z_][A-Za-z0-9_]*", lab):
+                    tags.append("h-label:" + ("letter" if lab[0].isalpha() else "underscore"))
+                    if rl[1] is None or not is_comment(rl[1], lab + ",ID,DV"):
+                        mon.append({"cls": "generated-ignore-char-keeps-header-line",
+                                    "what": f"set_ignore_character_from_header({lab!r}) on a $DATA with IGNORE={start} gives "
+                                            f"IGNORE={rl[1]}: the header line {lab + ',ID,DV'!r} write_csv writes is not skipped"})
+                        break
+        (d / "run1.mod").write_text(f"$PROBLEM c13\n$INPUT {inp_text}\n$DATA data.dat IGNORE=@\n$PRED\n"
                                     "Y = THETA(1) + ETA(1) + EPS(1)\n$THETA 1\n$OMEGA 1\n$SIGMA 1\n$ESTIMATION METHOD=1\n")
         with warnings.catch_warnings():
             warnings.simplefilter("ignore")
             model = read_model(d / "run1.mod")
+            src_rec = generated_data_record(d / "run1.mod")[2]
+            src_header = text.split("\n")[0]
 
             def snapshot(m):
                 fs = {p.name: p.read_text() for p in sorted(d.iterdir()) if p.suffix != ".mod"}
@@ -1776,25 +1927,69 @@ def run_history_case(case, drv):
                     if pth is None or not pth.is_file():
                         mon.append({"cls": "write-csv-no-file", "what": f"step {step}: write_csv returned but datainfo.path {pth} is no file"})
                     else:
-                        back = ds.read_nonmem_dataset(StringIO(pth.read_text()), ignore_character="@",
-                                                      colnames=list(model.dataset.columns), missing_data_token=MISSING)
-                        if not frames_equal(back, model.dataset):
+                        wtext = pth.read_text()
+                        try:
+                            back = ds.read_nonmem_dataset(StringIO(wtext), ignore_character=header_ignore_char(wtext.split("\n")[0]),
+                                                          colnames=list(model.dataset.columns),
+                                                          drop=[bool(ci_.drop) for ci_ in model.datainfo],
+                                                          missing_data_token=MISSING)
+                        except Exception as e:
+                            back = None
+                            mon.append({"cls": "written-file-cannot-be-read",
+                                        "what": f"step {step} {op}: the file {pth.name} written by write_csv, {wtext!r}, read with "
+                                                f"the columns of the dataset raises {type(e).__name__}: {str(e)[:120]}"})
+                        if back is not None and not frames_equal(back, model.dataset):
                             mon.append({"cls": "written-file-differs-from-dataset",
                                         "what": f"step {step} {op}: after write_csv the file {pth.name} holds {pth.read_text()!r}, "
                                                 f"model.dataset is {frame_of(model.dataset)}"})
                 if status == "ok" and op[0] == "write_model":
                     if synced or before_st[1] == []:
                         synced = True
-                        rb = read_model(d / op[1]).dataset
-                        dl = [l.split() for l in (d / op[1]).read_text().splitlines() if l.startswith("$DATA")]
-                        data_name = dl[0][1] if dl and len(dl[0]) > 1 else None
+                        try:
+                            rb, rb_err = read_model(d / op[1]).dataset, None
+                        except Exception as e:
+                            rb, rb_err = None, f"{type(e).__name__}: {str(e)[:150]}"
+                        data_name, gen_ic, gen_rec = generated_data_record(d / op[1])
+                        data_name = Path(data_name).name
+                        regenerated = gen_rec != src_rec
                         pth = model.datainfo.path
-                        if not frames_equal(rb, model.dataset) and not op[2] and pth is not None and data_name != pth.name:
+                        same = rb is not None and frames_equal(rb, model.dataset)
+                        dfile = d / data_name
+                        header = dfile.read_text().split("\n")[0] if dfile.is_file() else None
+                        by_pharmpy = header is not None and header.split(",") == [str(c_) for c_ in model.dataset.columns]
+                        if drv is not None and by_pharmpy and regenerated:
+                            # K: the IGNORE character of the generated $DATA vs Lean generatedIgnore of the written frame
+                            a = drv.ask(["genignore", frame_of(model.dataset)])
+                            if a[:2] != ["ok", gen_ic]:
+                                k.append(f"step {step} {op[:3]}: generated $DATA has IGNORE={gen_ic}, model {a}")
+                        if same:
+                            pass
+                        elif not op[2] and pth is not None and data_name != pth.name:
                             # unforced write_model leaves the old file name in $DATA although datainfo.path moved
                             mon.append({"cls": "write-model-noforce-keeps-old-data-file",
                                         "what": f"step {step} {op}: write_model(force=False) generated $DATA {data_name} although "
-                                                f"datainfo.path is {pth.name}; read back {frame_of(rb)}, model.dataset {frame_of(model.dataset)}"})
-                        elif not frames_equal(rb, model.dataset):
+                                                f"datainfo.path is {pth.name}; read back {rb_err or frame_of(rb)}, "
+                                                f"model.dataset {frame_of(model.dataset)}"})
+                        elif by_pharmpy and not regenerated and header != src_header and not is_comment(gen_ic or "#", header):
+                            # write_csv overwrote the file the source model's $DATA names with another header line and
+                            # write_model kept the $DATA record of the source model as it was
+                            mon.append({"cls": "data-file-overwritten-in-place-keeps-old-data-record",
+                                        "what": f"step {step} {op}: $INPUT {inp_text}: write_csv overwrote {data_name} (header {src_header!r} "
+                                                f"-> {header!r}) and write_model kept the source record '$DATA {gen_rec[6:]}': the header line is "
+                                                f"not skipped; reading back gives {rb_err or frame_of(rb)}"})
+                        elif by_pharmpy and not is_comment(gen_ic or "#", header):
+                            # the data file was written by pharmpy (header = the dataset's labels) and the generated
+                            # IGNORE character does not remove that header line
+                            mon.append({"cls": "generated-ignore-char-keeps-header-line",
+                                        "what": f"step {step} {op}: $INPUT {inp_text}: write_model generated $DATA {data_name} "
+                                                f"IGNORE={gen_ic} but the written file starts with the header line {header!r}, which "
+                                                f"that character does not skip; reading back gives {rb_err or frame_of(rb)}, "
+                                                f"model.dataset is {frame_of(model.dataset)}"})
+                        elif rb is None:
+                            mon.append({"cls": "written-dataset-read-back-raises",
+                                        "what": f"step {step} {op}: $INPUT {inp_text}: reading the dataset back through {op[1]} raises "
+                                                f"{rb_err}; model.dataset is {frame_of(model.dataset)}"})
+                        else:
                             mon.append({"cls": "written-dataset-read-back-differs",
                                         "what": f"step {step} {op}: dataset read back through {op[1]} is {frame_of(rb)}, "
                                                 f"model.dataset is {frame_of(model.dataset)}; $DATA: "
